@@ -161,7 +161,11 @@ pub fn run_c11(run: &mut Run) -> anyhow::Result<()> {
         let in_a = pick(&mut rng, mask & 2 != 0);
         let out_b = pick(&mut rng, mask & 4 != 0);
         let in_b = pick(&mut rng, mask & 8 != 0);
-        let custom_layer = rng.chance(1, 3);
+        let custom_layer: u8 = match rng.below(6) {
+            0 => 1,
+            1 | 2 => 2,
+            _ => 0,
+        };
         let hdr: Option<String> = match rng.below(5) {
             0 | 1 => None,
             2 => Some((*rng.pick(&["", "abc", "-1", "18446744073709551616", " 400000000"])).to_string()),
@@ -185,7 +189,7 @@ pub fn run_c11(run: &mut Run) -> anyhow::Result<()> {
                 c
             };
             let a = start_node_opts(&fabric, 1, key_of(seed, 1), "verif", None, mk(out_a, in_a), custom_layer)?;
-            let b = start_node_opts(&fabric, 2, key_of(seed, 2), "verif", None, mk(out_b, in_b), false)?;
+            let b = start_node_opts(&fabric, 2, key_of(seed, 2), "verif", None, mk(out_b, in_b), 0)?;
             let p = a.net.connect(b.addr).await?;
             let mut req = Request::new(Bytes::from_static(b"t")).with_header("x-id", "t1").with_header("x-sleep-ms", d_ms.to_string());
             if let Some(h) = hdr2 {
@@ -216,7 +220,7 @@ pub fn run_c11(run: &mut Run) -> anyhow::Result<()> {
             d_ms * MS
         );
         run.count("e2e", &class);
-        run.count("e2e-config", &format!("mask{mask:02}{}", if custom_layer { "+layer" } else { "" }));
+        run.count("e2e-config", &format!("mask{mask:02}{}", ["", "+layer", "+layer-before-config"][custom_layer as usize]));
         // implementation-only oracle: handler dropped (not run to completion) whenever it was cut off
         let mut bad = None;
         if class == "callee-cutoff" && !(lc.0 == 1 && lc.2 == 1 && lc.1 == 0) {
@@ -253,6 +257,105 @@ pub fn run_c11(run: &mut Run) -> anyhow::Result<()> {
         }
         if want != "either" {
             run.op(op, class, true);
+        }
+    }
+
+    // ---- (d) the deadline runs from the moment the call is made, also while it waits for QUIC stream
+    // credit: the callee allows few concurrent streams, all taken by slow requests without a deadline
+    let n_credit = if run.quick() { 8 } else { 300 };
+    for case in 0..n_credit {
+        let streams = 1 + rng.below(2);
+        // (the deadline comes from the header: a caller-side default would cut the slow requests as well and free their streams)
+        let via_header = true;
+        let deadline_ms = *rng.pick(&[200u64, 300, 500]);
+        let slow_ms = 2000 + rng.below(1500);
+        let seed = run.seed ^ 0xc11d ^ ((case as u64) << 12);
+        let rtm = paused_rt();
+        let res: anyhow::Result<(String, u64)> = rtm.block_on(async move {
+            let fabric = Fabric::new(seed);
+            let mut ca: Config = config_idle(60_000);
+            if !via_header {
+                ca.outbound_request_timeout_ms = Some(deadline_ms);
+            }
+            let mut cb: Config = config_idle(60_000);
+            let mut q = anemo::QuicConfig::default();
+            q.max_idle_timeout_ms = Some(60_000);
+            q.max_concurrent_bidi_streams = Some(streams);
+            cb.quic = Some(q);
+            let a = start_node(&fabric, seed, 1, ca)?;
+            let b = start_node(&fabric, seed, 2, cb)?;
+            let p = a.net.connect(b.addr).await?;
+            for i in 0..streams {
+                let net = a.net.clone();
+                // slow requests carry their own generous header so that the caller's default does not cut them
+                tokio::spawn(async move { net.rpc(p, Request::new(Bytes::from_static(b"s")).with_header("x-id", format!("slow{i}")).with_header("x-sleep-ms", slow_ms.to_string()).with_timeout(Duration::from_secs(3600))).await });
+            }
+            tokio::time::sleep(Duration::from_millis(100)).await;
+            let mut req = Request::new(Bytes::from_static(b"t")).with_header("x-id", "late");
+            if via_header {
+                req = req.with_header("timeout", (deadline_ms * MS).to_string());
+            }
+            let t0 = tokio::time::Instant::now();
+            let r = tokio::time::timeout(Duration::from_secs(60), a.net.rpc(p, req)).await;
+            let el = (tokio::time::Instant::now() - t0).as_millis() as u64;
+            let class = match r {
+                Err(_) => "hang".to_string(),
+                Ok(Ok(resp)) => format!("answered-{}", resp.status().to_u16()),
+                Ok(Err(e)) if format!("{e:#}").contains("Timeout expired") => "caller-timeout".into(),
+                Ok(Err(e)) => format!("error:{}", format!("{e:#}").replace(' ', "_")),
+            };
+            Ok((class, el))
+        });
+        drop(rtm);
+        let (class, el) = res?;
+        run.eval(&format!("credit case {case}"), true);
+        run.count("no-stream-credit", &class);
+        // with `with_timeout` on the slow requests a caller default larger than... the slow ones hold their
+        // streams for slow_ms >= 2 s; the late call must fail at its own deadline, not when credit returns
+        if class != "caller-timeout" || el < deadline_ms || el > deadline_ms + 60 {
+            run.oracle_fail(json!({"kind": "a call waiting for stream credit is not cut off at its deadline", "observed": class, "elapsed_ms": el, "deadline_ms": deadline_ms, "deadline_from": if via_header { "timeout header" } else { "outbound default" },
+                "callee_max_concurrent_bidi_streams": streams, "slow_requests_ms": slow_ms}));
+        }
+    }
+
+    // ---- (e) handlers of GENERATED servers are dropped at the deadline too (typed handlers run behind
+    // rpc::server::Rpc::unary)
+    {
+        use crate::codegen::{beta, Instr, Msg, H};
+        let rt = paused_rt();
+        for case in 0..(if run.quick() { 6 } else { 200 }) {
+            let deadline_ms = *rng.pick(&[100u64, 300, 700]);
+            let need_ms = deadline_ms + 200 + rng.below(1500);
+            let via_header = rng.chance(1, 2);
+            let h = H::default();
+            let h2 = h.clone();
+            let (status, el, dropped_after, finished): (u16, u64, bool, bool) = rt.block_on(async move {
+                let server = beta::beta_server::BetaServer::new(h2.clone());
+                let svc = anemo::verif::middleware::inbound_timeout(server, if via_header { None } else { Some(Duration::from_millis(deadline_ms)) });
+                let (route, body) = if case % 2 == 0 {
+                    ("/pkg.sub.Beta/One", Bytes::from(serde_json::to_vec(&Msg { id: 7, via: String::new(), instr: Instr::Sleep { ms: need_ms } }).unwrap()))
+                } else {
+                    ("/pkg.sub.Beta/Three", Bytes::from(bincode::serialize(&Msg { id: 7, via: String::new(), instr: Instr::Sleep { ms: need_ms } }).unwrap()))
+                };
+                let mut req = Request::new(body).with_route(route);
+                if via_header {
+                    req = req.with_header("timeout", (deadline_ms * MS).to_string());
+                }
+                let t0 = tokio::time::Instant::now();
+                let resp = svc.oneshot(req).await.unwrap();
+                let el = (tokio::time::Instant::now() - t0).as_millis() as u64;
+                tokio::time::sleep(Duration::from_millis(20)).await;
+                let d = h2.1.lock().unwrap().clone();
+                tokio::time::sleep(Duration::from_millis(need_ms + 100)).await;
+                let fin = h2.1.lock().unwrap().iter().any(|x| x.1);
+                (resp.status().to_u16(), el, d.iter().any(|x| x.0 == 7 && !x.1), fin)
+            });
+            run.eval(&format!("generated-handler-drop case {case}"), true);
+            run.count("generated-handler-at-deadline", if dropped_after { "dropped" } else { "alive" });
+            if status != 408 || el < deadline_ms || el > deadline_ms + 5 || !dropped_after || finished {
+                run.oracle_fail(json!({"kind": "a typed handler of a generated server is not dropped at the deadline", "status": status, "elapsed_ms": el, "deadline_ms": deadline_ms, "handler_needs_ms": need_ms,
+                    "handler_future_dropped_at_deadline": dropped_after, "handler_ran_to_completion_later": finished}));
+            }
         }
     }
     Ok(())
